@@ -488,6 +488,24 @@ func factsAt1(fn *ssa.Function) map[*ssa.BasicBlock]map[condFact]bool {
 	in := map[*ssa.BasicBlock]map[condFact]bool{}
 	// nil map = TOP (not yet computed)
 	in[fn.Blocks[0]] = map[condFact]bool{}
+	// comparisons that occur more than once with the same operands
+	twins := map[synthKey][]*ssa.BinOp{}
+	for _, b := range fn.Blocks {
+		for _, i := range b.Instrs {
+			if bo, ok := i.(*ssa.BinOp); ok {
+				switch bo.Op {
+				case token.EQL, token.NEQ, token.LSS, token.LEQ, token.GTR, token.GEQ:
+					k := synthKey{bo.Op, canonOperand(bo.X), canonOperand(bo.Y)}
+					twins[k] = append(twins[k], bo)
+				}
+			}
+		}
+	}
+	for k, v := range twins {
+		if len(v) < 2 {
+			delete(twins, k)
+		}
+	}
 	changed := true
 	for changed {
 		changed = false
@@ -517,6 +535,30 @@ func factsAt1(fn *ssa.Function) map[*ssa.BasicBlock]map[condFact]bool {
 					}
 				}
 				phiImplied(out, in)
+				// go/ssa does not share equal expressions: a condition tested twice (`case a == -1 && b == -1:` then
+				// `case a == -1:`) is two instructions. What is known about one comparison is known about every
+				// comparison of the same operands; an edge on which a condition would be both true and false is not taken.
+				if len(twins) > 0 {
+					for f := range out {
+						if bo, ok := f.Cond.(*ssa.BinOp); ok {
+							for _, t := range twins[synthKey{bo.Op, canonOperand(bo.X), canonOperand(bo.Y)}] {
+								if t != bo {
+									out[condFact{t, f.Pol}] = true
+								}
+							}
+						}
+					}
+					infeasible := false
+					for f := range out {
+						if f.Pol && out[condFact{f.Cond, false}] {
+							infeasible = true
+							break
+						}
+					}
+					if infeasible {
+						continue
+					}
+				}
 				if first {
 					acc = out
 					first = false
@@ -631,6 +673,27 @@ type synthKey struct {
 
 var synthBinOps = map[synthKey]*ssa.BinOp{}
 var synthAsserts = map[synthKey]*ssa.Extract{}
+
+// canonOperand: constants are separate objects at every use; equal constants get one representative so that
+// comparisons with the same operands can be recognised.
+var canonConsts = map[string]*ssa.Const{}
+
+func canonOperand(v ssa.Value) ssa.Value {
+	c, ok := v.(*ssa.Const)
+	if !ok {
+		return v
+	}
+	val := "nil"
+	if c.Value != nil {
+		val = c.Value.ExactString()
+	}
+	k := c.Type().String() + "|" + val
+	if r, ok := canonConsts[k]; ok {
+		return r
+	}
+	canonConsts[k] = c
+	return c
+}
 
 func synthBinOp(op token.Token, x, y ssa.Value) *ssa.BinOp {
 	k := synthKey{op, x, y}
